@@ -512,7 +512,9 @@ def g_rules(p: Project, rep: Report):
         rep.check("G-R7", "mk_server_cfg:skip-filter-baseline", cmp_ok, detail, gloc(p, mk))
     lib = [s for s in own_statements(mk) if isinstance(s, ast.Assign) and text(s.targets[0]) == "lib_cfg"]
     if lib:
-        ok = all(text(s.value) == "read_config(LIBCFG, server)" for s in lib)
+        # read_config(LIBCFG, <the nickname>), the nickname being whatever names the user's section in this function
+        keys_ = {text(x.slice) for x in ast.walk(mk) if isinstance(x, ast.Subscript) and text(x.value) == "USERCFG" and isinstance(x.slice, ast.Name)}
+        ok = all(isinstance(s.value, ast.Call) and text(s.value.func) == "read_config" and len(s.value.args) == 2 and text(s.value.args[0]) == "LIBCFG" and (text(s.value.args[1]) in keys_ or text(s.value.args[1]) == "server") for s in lib)
         rep.check("G-R7", "mk_server_cfg:baseline-from-fi-db", ok, "" if ok else "the FI-database baseline is not read_config(LIBCFG, server)", gloc(p, lib[0]))
 
     rep.rule("G-R4", "write_config stores nothing on a dry run (no file is opened, the in-memory configuration is not touched); the default CLIENTUID is generated only when the reloaded user file has none, and is stored in the default section")
